@@ -126,6 +126,37 @@ IMPL_OPS.update({
     "OMatmul": lambda a, ia: a[0] @ a[1],
     "OTr": lambda a, ia: a[0].t(),
 })
+def _norm2_impl(a, ia):
+    """squared norm through the autograd (Gram) branch: exact on integer data"""
+    torch, torchtt = _imp()
+    x = a[0]
+    y = torchtt.TT([c.clone().requires_grad_(True) for c in x.cores])
+    return y.norm(True).detach()
+def _sum_impl(a, ia):
+    return a[0].sum() if not ia else a[0].sum(list(ia[0]))
+def _sum_dense(a, ia):
+    torch, _ = _imp()
+    if not ia: return a[0].sum()
+    if len(ia[0]) == 0: return a[0]
+    return torch.sum(a[0], dim=list(ia[0]))
+def _dot_impl(a, ia):
+    _, torchtt = _imp()
+    return torchtt.dot(a[0], a[1]) if not ia else torchtt.dot(a[0], a[1], list(ia[0]))
+def _dot_dense(a, ia):
+    torch, _ = _imp()
+    if not ia: return (a[0] * a[1].conj()).sum()
+    ax = list(ia[0])
+    return torch.tensordot(a[0], a[1].conj(), dims=(ax, list(range(len(ax)))))
+def _bilinear_dense(a, ia):
+    torch, _ = _imp()
+    x, A, y = a
+    d = x.dim()
+    t = torch.tensordot(x.conj(), A, dims=(list(range(d)), list(range(d))))
+    return torch.tensordot(t, y, dims=(list(range(d)), list(range(d))))
+IMPL_OPS.update({
+    "ONorm2": _norm2_impl, "OSum": _sum_impl, "ODot": _dot_impl,
+    "OBilinear": lambda a, ia: _imp()[1].bilinear_form(a[0], a[1], a[2]),
+})
 # factories need the dtype: handled in Op.impl / Op.dense
 FACTORY_IMPL = {
     "OEye": lambda ia, dtype: _tt().eye(ia[0], dtype=dtype),
@@ -141,6 +172,10 @@ DENSE_OPS = dict(IMPL_OPS)
 DENSE_OPS["OKron"] = lambda a, ia: _kron_dense(a[0], a[1])
 DENSE_OPS["OMatmul"] = _matmul_dense
 DENSE_OPS["OTr"] = _tr_dense
+DENSE_OPS["ONorm2"] = lambda a, ia: (a[0] * a[0].conj()).sum()
+DENSE_OPS["OSum"] = _sum_dense
+DENSE_OPS["ODot"] = _dot_dense
+DENSE_OPS["OBilinear"] = _bilinear_dense
 
 class Op:
     def __init__(self, name, args, ia=()):
